@@ -23,6 +23,7 @@ pub fn describe_case(case: &Case, src: &str) -> String {
                     Dir::In => "in",
                     Dir::Out => "out",
                     Dir::Bidir => "bidir",
+                    Dir::Virt => "virt",
                 },
                 s.default.map(|n| n.to_string()).unwrap_or("Z".into())
             )
@@ -199,7 +200,7 @@ fn features(case: &Case, lines: &[String]) -> Vec<&'static str> {
         f.push("rows>255");
     }
     for t in &case.tags {
-        if t.starts_with("scale") || *t == "wide" {
+        if t.starts_with("scale") || *t == "wide" || *t == "echo-virtual" {
             f.push(t);
         }
     }
@@ -342,6 +343,15 @@ pub fn suite_run(ctx: &mut Ctx, suite: &str, n: u64) {
         } else {
             gen_case(&mut cr, &prof)
         };
+        let mut case = case;
+        if prop == "C14" && idx % 5 == 3 && case.fault.is_none() {
+            // a driver that answers for EVERY signal of the test that is no input — the declared ones included
+            let mut decl = vec![];
+            collect_declares(&case.prog.stmts, &mut decl);
+            if !decl.is_empty() {
+                case.tags.push("echo-virtual");
+            }
+        }
         let printed = print(&case.prog, &mut Prng::new(case.style_seed), &case.style);
         judge_run_case(ctx, suite, cs, &case, &printed.text, Some(&printed));
     }
@@ -392,6 +402,25 @@ pub fn judge_run_case(ctx: &mut Ctx, suite: &str, cs: u64, case: &Case, src: &st
             ml.push("# --- behind the first error item ---".into());
             ml.extend(m_tail.iter().cloned());
             add_finding(ctx, "model", suite, cs, format!("behind the first error item: {}", first_diff(&ti, &tm)), text.clone(), &il, &ml);
+        }
+    }
+    // the static twin: a program that reads no outputs can also be iterated without a driver; those rows are part of
+    // what the row-oriented properties speak about (same inputs, expected entries and lines)
+    if matches!(prop.as_str(), "C01" | "C05" | "C06" | "C14" | "C17" | "C19") && case.fault.is_none() {
+        let reads_empty = run.lines.iter().find(|l| l.starts_with("bind ok")).map(|l| l.contains(" reads=[] ")).unwrap_or(false);
+        if reads_empty {
+            if let Some((sl, sepochs, spanic)) = imp::run_static_case(case, src) {
+                let req = imp::enc_run_request(src, &case.sigs, false, &[], &sepochs, case.cap, true);
+                let ms_all = split_post(ctx.model.ask(&req)).0;
+                let ms: Vec<String> = significant(&ms_all).into_iter().filter(|l| l.starts_with("static") || l.starts_with("sitem")).collect();
+                ctx.report.bump("static-twin");
+                if significant(&sl) != ms {
+                    add_finding(ctx, "model", suite, cs, format!("static iteration: {}", first_diff(&significant(&sl), &ms)), text.clone(), &sl, &ms_all);
+                }
+                if spanic {
+                    add_finding(ctx, "oracle", suite, cs, format!("static iteration panicked: {sl:?}"), text.clone(), &sl, &ms_all);
+                }
+            }
         }
     }
     // the property judged on the implementation's own trace
@@ -1520,6 +1549,88 @@ pub fn suite_expr(ctx: &mut Ctx, suite: &str, n: u64) {
     }
 }
 
+/// value of the flat chain `v0 o1 v1 … on vn` under the property's table: split at the LAST operator of the loosest
+/// level present (left associativity), recursively — written against the statement, not against the parser
+fn ladder_value(vals: &[i64], ops: &[(&'static str, u8)]) -> Result<i64, RefErr> {
+    if ops.is_empty() {
+        return Ok(vals[0]);
+    }
+    let loosest = ops.iter().map(|o| o.1).max().unwrap();
+    let at = ops.iter().rposition(|o| o.1 == loosest).unwrap();
+    let l = ladder_value(&vals[..=at], &ops[..at])?;
+    let r = ladder_value(&vals[at + 1..], &ops[at + 1..])?;
+    ref_binop(ops[at].0, l, r)
+}
+
+/// Long flat operator chains without any parentheses: all eight levels in one expression, from the loosest to the
+/// tightest and back, zigzags, runs of one level — the shapes in which a bounded or iterative tree builder goes wrong.
+pub fn suite_ladders(ctx: &mut Ctx, suite: &str, n: u64) {
+    if ctx.only_suite.as_deref().map(|s| s != suite).unwrap_or(false) {
+        return;
+    }
+    let by_level = |lv: u8| -> Vec<(&'static str, &'static str, u8)> { BINOPS.iter().filter(|o| o.2 == lv).cloned().collect() };
+    for idx in 0..n {
+        let cs = case_seed(ctx.seed, suite, idx);
+        if ctx.only_case.map(|c| c != cs).unwrap_or(false) {
+            continue;
+        }
+        if ctx.too_many() {
+            break;
+        }
+        let mut r = Prng::new(cs);
+        // the sequence of levels
+        let levels: Vec<u8> = match idx % 6 {
+            0 => (1..=8).rev().collect(),                                   // loosest → tightest: the deepest right spine
+            1 => (1..=8).collect(),                                         // tightest → loosest: the deepest left spine
+            2 => (1..=8).rev().chain(1..=8).collect(),                      // down and up again
+            3 => (1..=8).chain((1..=8).rev()).collect(),                    // up and down again
+            4 => {
+                let lv = 1 + r.below(8) as u8;                              // a long run of one level
+                vec![lv; 2 + r.below(14)]
+            }
+            _ => (0..(2 + r.below(18))).map(|_| 1 + r.below(8) as u8).collect(),
+        };
+        // now and then drop a few steps of a ladder, so that every length and every skipped level occurs
+        let levels: Vec<u8> = if idx % 6 < 4 && r.chance(1, 2) { levels.into_iter().filter(|_| !r.chance(1, 5)).collect() } else { levels };
+        if levels.is_empty() {
+            continue;
+        }
+        let ops: Vec<(&'static str, &'static str, u8)> = levels.iter().map(|lv| *r.pick(&by_level(*lv))).collect();
+        let vals: Vec<i64> = (0..=ops.len()).map(|_| *r.pick(&[0i64, 1, 1, 2, 3, 5, 7, 9, 255, 1 << 40])).collect();
+        let mut text = String::new();
+        for (i, v) in vals.iter().enumerate() {
+            if i > 0 {
+                text.push_str(&format!(" {} ", ops[i - 1].1));
+            }
+            text.push_str(&v.to_string());
+        }
+        ctx.tick(&text);
+        let got = eval_via_api(&text, &[]);
+        let flat: Vec<(&'static str, u8)> = ops.iter().map(|o| (o.0, o.2)).collect();
+        let want = ladder_value(&vals, &flat);
+        ctx.report.evaluations += 1;
+        ctx.report.distinct.insert(fnv(&text));
+        ctx.report.nontrivial.insert(fnv(&text));
+        ctx.report.bump(if ops.len() >= 8 { "ladder>=8" } else { "ladder<8" });
+        let ok = match (&got, &want) {
+            (Ok(Ok(v)), Ok(w)) => v == w,
+            (Ok(Err(_)), Err(RefErr::DivZero)) => true,
+            _ => false,
+        };
+        if !ok {
+            add_finding(ctx, "oracle", suite, cs, format!("`{text}`: implementation gives {got:?}, the precedence table of the property gives {want:?}"), text.clone(), &[], &[]);
+        }
+        // and the tree itself, against the model's parser
+        let src = format!("A\n({text})\n");
+        let (il, _) = imp::parse_line(&src);
+        let m = ctx.model.ask(&format!("parse {}", hex(&src)));
+        let ml = m.first().cloned().unwrap_or_default();
+        if strip_row_lines(&il) != strip_row_lines(&ml) {
+            add_finding(ctx, "model", suite, cs, format!("`{text}`: the parsed tree differs: {}", first_diff(&[il.clone()], &[ml.clone()])), text, &[il], &m);
+        }
+    }
+}
+
 pub fn suite_mask(ctx: &mut Ctx, suite: &str) {
     use digital_test_runner::{ExpectedValue, InputValue, ParsedTestCase, Signal};
     if ctx.only_suite.as_deref().map(|s| s != suite).unwrap_or(false) {
@@ -1825,6 +1936,7 @@ pub fn run_property(ctx: &mut Ctx) {
             suite_tables(ctx, "tables");
             suite_ops(ctx, "ops", k(60, 3000));
             suite_expr(ctx, "expr", k(1500, 60000));
+            suite_ladders(ctx, "ladders", k(1200, 30000));
             suite_text_valid(ctx, "text-valid", k(800, 40000));
             suite_run(ctx, "run", k(500, 20000));
         }
